@@ -96,6 +96,10 @@ func (o *Out) Close() error {
 // DeclareTypes writes the `T` records.
 func (o *Out) DeclareTypes(entries []*TypeEntry) {
 	for _, e := range entries {
+		if e.Builtin != "" {
+			o.Line("T " + e.Tid + " X " + e.Builtin)
+			continue
+		}
 		o.Line("T " + e.Tid + " " + e.Node.String())
 	}
 }
